@@ -293,7 +293,7 @@ def gen_c04(tier, rng):
             out.append(pcase("C04", d, {}, argv))
     # very long tokens (stack depth of the old regular expression)
     d = ts[0]
-    for n in (1000, 20000, 200000) + ((1000000,) if big else ()):
+    for n in (1000, 20000, 200000) + ((400000,) if big else ()):
         out.append(pcase("C04", d, {}, ["--req=x", "-" + "v" * n]))
         out.append(pcase("C04", d, {}, ["--req=" + "y" * n]))
         out.append(pcase("C04", d, {}, ["--" + "n" * n]))
@@ -472,8 +472,8 @@ C03 = Prop("C03", "opt", ["NitroVerif.Props.C03"], gen_c03,
 C04 = Prop("C04", "opt", ["NitroVerif.Props.C04"], gen_c04,
            rule="exhaustive token syntax: every string of length <=5 over {-,=,a,n,o,newline} through the user_input constructor; "
                 "C01's vectors of length <=2; random vectors; arbitrary byte strings; inconsistent declarations (shared letter, "
-                "option named no-<toggle>); tokens of 1e3..2e5 characters (1e6 in the thorough tier); ASan/UBSan and a 5 s "
-                "watchdog per case. Non-trivial: as C01, every token case. " \
+                "option named no-<toggle>); tokens of 1e3..2e5 characters (4e5 in the thorough tier); ASan/UBSan and a 5 s "
+                "CPU-time watchdog per case. Non-trivial: as C01, every token case. " \
                 "Two-parse histories as in the other option families (no moved-parser variants here).",
            search=SRCH(gen_c04), theorem_hint="NitroVerif.Props.C04.*",
            level_text="Lean 4: parse returns a result or the user-input error for every argument vector and environment when "
